@@ -35,6 +35,11 @@ def jobs(tier):
             for b in PROBES:
                 js.append(dict(name=f"chunks[{'+'.join(a)}|{'+'.join(b)},L={L}]", fn="chunks", args=[[list(a), list(b)], L, list(SURPLUS)],
                                collect_models=1, expect=["last chunk consumed exactly"]))
+    # later chunks read through a slice taken after the first chunk (under-, exact or over-read)
+    for a in ([("char",), ("short", "string"), ("fixed_string",)] if q else [("char",), ("short", "string"), ("fixed_string",), (), ("int", "encoded_string")]):
+        for b in ([("short", "string")] if q else [("short", "string"), ("char",), ("encoded_string",)]):
+            js.append(dict(name=f"sliced[{'+'.join(a)}|{'+'.join(b)}|int]", fn="chunks", args=[[list(a), list(b), ["int"]], 2, list(SURPLUS), True],
+                           collect_models=1, expect=["last chunk consumed exactly"]))
     # size thresholds: a chunk that ends far from where it starts (seed C06h: a break scan that works in widening windows)
     for L in ((66, 130) if q else (33, 66, 100, 130, 200, 260)):
         js.append(dict(name=f"long[char+string|short+string|int,L={L}]", fn="chunks", args=[[["char", "string"], ["short", "string"], ["int"]], L, list(SURPLUS)],
